@@ -3,6 +3,7 @@
 
 pub mod driver;
 pub mod families;
+pub mod fault;
 pub mod model;
 pub mod prog;
 pub mod world;
